@@ -237,12 +237,17 @@ def wl_syntax(ctx, rng, case_no):
                 ctx.count("mon.syntax_range")
             else:
                 sel = list(enumerate(src))
-            # trailing blank lines aside
-            while sel and not sel[-1][1].strip():
-                sel.pop()
+            # blank lines at the very end of the SOURCE aside; a range that ends on a blank line in the middle of
+            # the code selects that line like any other
+            interior = bool(opts["line_range"]) and 0 < opts["line_range"][1] < len(strip_trailing_blank(src))
             got = list(groups)
-            while got and not "".join(got[-1][2]).strip():
-                got.pop()
+            if not interior:
+                while sel and not sel[-1][1].strip():
+                    sel.pop()
+                while got and not "".join(got[-1][2]).strip():
+                    got.pop()
+            else:
+                ctx.count("mon.syntax_range_interior")
             ctx.count("mon.syntax_numbers")
             if len(got) != len(sel):
                 ctx.violation("syntax-line-count-differs:%s:%s" % (lexer_tag(lexer), ftag),
@@ -293,6 +298,16 @@ def gen_module(rng, index):
         if i == depth - 1:
             lines.append(rng.choice(["    raise ValueError('boom %d' % x)", "    return 1 / (x - x)",
                                      "    return {}['missing' + str(x)]"]))
+        elif rng.random() < 0.3:
+            # the frame goes on executing after the exception passed through it (clean-up code): its failing line is
+            # the call, not the last line it ran
+            lines.append("    try:")
+            lines.append("        return %s(x)  # call" % names[i + 1])
+            raise_lines[names[i]] = len(lines)
+            lines.append("    finally:")
+            lines.append("        cleanup = x")
+            lines.append("        cleanup += 1")
+            continue
         else:
             lines.append("    return %s(x)  # call" % names[i + 1])
         raise_lines[names[i]] = len(lines)
@@ -317,7 +332,9 @@ def wl_traceback(ctx, rng, case_no):
     src, info = gen_module(rng, case_no)
     # a handful of paths are used over and over with new content (a program that is edited and re-run, a file
     # restored from a backup): half of the time the new file's mtime is made OLDER than any earlier version's
-    path = os.path.join(_tmpdir, "mod_%d_%d.py" % (os.getpid(), case_no % 3 if rng.random() < 0.5 else case_no))
+    # the source file of a frame may have any name: a script without a suffix, a plug-in suffix no lexer knows
+    suffix = rng.choice([".py", ".py", ".py", ".py", "", ".plugin", ".txt", ".PY"])
+    path = os.path.join(_tmpdir, "mod_%d_%d%s" % (os.getpid(), case_no % 3 if rng.random() < 0.5 else case_no, suffix))
     reused = os.path.exists(path)
     with open(path, "w", encoding="utf-8") as f:
         f.write(src)
@@ -327,11 +344,10 @@ def wl_traceback(ctx, rng, case_no):
     linecache.checkcache(path)
     ctx.hist("traceback_source_path", "reused" if reused else "fresh")
     try:
-        spec = importlib.util.spec_from_file_location("rv_c17_mod_%d" % case_no, path)
-        mod = importlib.util.module_from_spec(spec)
-        spec.loader.exec_module(mod)
+        ns = {"__name__": "rv_c17_mod_%d" % case_no}
+        exec(compile(src, path, "exec"), ns)
         try:
-            getattr(mod, info["entry"])(3)
+            ns[info["entry"]](3)
         except Exception:
             et, ev, tb = sys.exc_info()
         else:
@@ -343,7 +359,9 @@ def wl_traceback(ctx, rng, case_no):
                                        show_locals=show_locals)
         ctx.hist("traceback_show_locals", show_locals)
         console = consoles.layout_console(rng.choice([100, 120, 80]))
-        wit = {"source": src, "raise_lines": info["raise_lines"], "extra_lines": extra, "show_locals": show_locals}
+        wit = {"source": src, "raise_lines": info["raise_lines"], "extra_lines": extra, "show_locals": show_locals,
+               "file_suffix": suffix}
+        ctx.hist("traceback_file_suffix", suffix or "(none)")
         try:
             shown = render_plain(console, tbr)
         except Exception as e:
